@@ -31,6 +31,38 @@ pub struct AcceptCase {
     pub n: u32,
     pub seed: u64,
     pub below: u8,
+    /// current and candidate encode the same solution (their objective values differ, e.g. re-evaluation under a
+    /// changed or noisy objective): the rule is about objective values, the survivor is recognised by its value
+    #[serde(default)]
+    pub same_solution: bool,
+    /// the generator's backend returns only zeros (every uniform draw is exactly 0.0, a legal value of [0, 1)):
+    /// a candidate whose acceptance probability underflowed to 0 is still never accepted
+    #[serde(default)]
+    pub zero_rng: bool,
+}
+
+/// A generator backend whose every output word is zero.
+pub struct ZeroRng;
+impl rand::RngCore for ZeroRng {
+    fn next_u32(&mut self) -> u32 {
+        0
+    }
+    fn next_u64(&mut self) -> u64 {
+        0
+    }
+    fn fill_bytes(&mut self, dest: &mut [u8]) {
+        dest.fill(0);
+    }
+    fn try_fill_bytes(&mut self, dest: &mut [u8]) -> Result<(), rand::Error> {
+        dest.fill(0);
+        Ok(())
+    }
+}
+impl rand::SeedableRng for ZeroRng {
+    type Seed = [u8; 8];
+    fn from_seed(_seed: Self::Seed) -> Self {
+        ZeroRng
+    }
 }
 
 pub struct AcceptCheck;
@@ -41,7 +73,7 @@ impl Check for AcceptCheck {
         "C17/acceptance".into()
     }
     fn classes(&self) -> &'static [&'static str] {
-        &["0.01 < p < 0.99", "candidate better", "candidate equal", "p ~ 0 (never)", "p ~ 1 (always)"]
+        &["0.01 < p < 0.99", "candidate better", "candidate equal", "p ~ 0 (never)", "p ~ 1 (always)", "same solution, different objective values", "every uniform draw is 0.0"]
     }
     fn oracle(&self, c: &AcceptCase) -> Outcome {
         let mut cl = 0;
@@ -75,9 +107,17 @@ fn accept_oracle(c: &AcceptCase, cl: &mut u64) -> Result<u32, Failure> {
         let seed = c.seed.wrapping_add(k as u64 * 0x9E37_79B9);
         let mut pops: Vec<Vec<Individual<RealP>>> = (0..c.below % 3).map(|b| vec![Individual::new_unevaluated(vec![100.0 + b as f64])]).collect();
         pops.push(vec![Individual::new(vec![1.0], fc.try_into().unwrap())]); // current, tag 1
-        pops.push(vec![Individual::new(vec![2.0], fn_.try_into().unwrap())]); // candidate on top, tag 2
+        let same = c.same_solution && fn_ != fc;
+        pops.push(vec![Individual::new(vec![if same { 1.0 } else { 2.0 }], fn_.try_into().unwrap())]); // candidate on top, tag 2
         let h = pops.len();
         let mut st = state_with::<RealP>(pops, seed);
+        if same {
+            *cl |= 32;
+        }
+        if c.zero_rng {
+            st.insert(mahf::Random::with_rng::<ZeroRng>(seed));
+            *cl |= 64;
+        }
         let r = catch(|| {
             comp.init(&problem, &mut st)?;
             comp.execute(&problem, &mut st)
@@ -95,7 +135,7 @@ fn accept_oracle(c: &AcceptCase, cl: &mut u64) -> Result<u32, Failure> {
             ensure_that!(pop.len() == 1 && pop[0].solution()[0] == 100.0 + b as f64, "C17 acceptance touches populations below", "{at}");
         }
         let s = &ps.current()[0];
-        let tag = s.solution()[0];
+        let tag = if same { if s.get_objective().map(|o| o.value()) == Some(fn_) { 2.0 } else { 1.0 } } else { s.solution()[0] };
         let want_obj = if tag == 2.0 { fn_ } else { fc };
         ensure_that!((tag == 1.0 || tag == 2.0) && s.get_objective().map(|o| o.value()) == Some(want_obj), "C17 survivor is neither the current nor the candidate individual", "{at}: survivor {:?}", s.solution());
         if tag == 2.0 {
@@ -108,7 +148,14 @@ fn accept_oracle(c: &AcceptCase, cl: &mut u64) -> Result<u32, Failure> {
         }
     }
     let n = c.n as f64;
-    if delta > 0.0 {
+    if delta > 0.0 && c.zero_rng {
+        // every draw is 0.0: accepted exactly when the acceptance probability is positive
+        if p == 0.0 {
+            ensure_that!(accepted == 0, "C17 worse candidate accepted although exp(-delta/T) underflows to 0", "{at}: with a generator whose every draw is 0.0 the candidate was accepted {accepted} of {} times", c.n);
+        } else {
+            ensure_that!(accepted == c.n, "C17 acceptance frequency differs from exp(-delta/T)", "{at}: with a generator whose every draw is 0.0 and p = {p:e} > 0 the candidate was accepted only {accepted} of {} times", c.n);
+        }
+    } else if delta > 0.0 {
         let ratio = delta / t;
         if ratio > 745.0 {
             ensure_that!(accepted == 0, "C17 worse candidate accepted although exp(-delta/T) underflows to 0", "{at}: accepted {accepted} of {} times", c.n);
@@ -153,8 +200,8 @@ impl Check for MiscCheck {
         let (cl, r) = match c {
             MiscCase::Monotone { delta, t1, t2, n, seed } => (1, {
                 let mut dummy = 0;
-                let lo = accept_oracle(&AcceptCase { f_current: Fb::of(0.0), f_candidate: *delta, t: *t1, n: *n, seed: *seed, below: 0 }, &mut dummy);
-                let hi = accept_oracle(&AcceptCase { f_current: Fb::of(0.0), f_candidate: *delta, t: *t2, n: *n, seed: seed.wrapping_add(17), below: 0 }, &mut dummy);
+                let lo = accept_oracle(&AcceptCase { f_current: Fb::of(0.0), f_candidate: *delta, t: *t1, n: *n, seed: *seed, below: 0, same_solution: false, zero_rng: false }, &mut dummy);
+                let hi = accept_oracle(&AcceptCase { f_current: Fb::of(0.0), f_candidate: *delta, t: *t2, n: *n, seed: seed.wrapping_add(17), below: 0, same_solution: false, zero_rng: false }, &mut dummy);
                 match (lo, hi) {
                     (Ok(a), Ok(b)) => {
                         let band = 12.0 * (*n as f64 / 4.0).sqrt() + 2.0;
@@ -226,7 +273,11 @@ fn grid(n: u32, base: u64) -> Vec<AcceptCase> {
                 if (fc != 0.0) && (i + j) % 3 != 0 {
                     continue;
                 }
-                out.push(AcceptCase { f_current: Fb::of(fc), f_candidate: Fb::of(fc + d), t: Fb::of(*t), n, seed: base.wrapping_add((i * 31 + j) as u64), below });
+                out.push(AcceptCase { f_current: Fb::of(fc), f_candidate: Fb::of(fc + d), t: Fb::of(*t), n, seed: base.wrapping_add((i * 31 + j) as u64), below, same_solution: (i + j) % 2 == 1, zero_rng: false });
+                if fc == 0.0 {
+                    // the same cell with a generator whose every draw is 0.0
+                    out.push(AcceptCase { f_current: Fb::of(fc), f_candidate: Fb::of(fc + d), t: Fb::of(*t), n: 3, seed: base.wrapping_add((i * 31 + j) as u64), below, same_solution: false, zero_rng: true });
+                }
             }
         }
     }
@@ -234,7 +285,8 @@ fn grid(n: u32, base: u64) -> Vec<AcceptCase> {
     // is never accepted over a feasible current solution, a feasible candidate always replaces an infeasible one
     for (j, t) in ts.iter().enumerate() {
         for (fc, fnew) in [(f64::INFINITY, f64::INFINITY), (f64::INFINITY, 5.0), (5.0, f64::INFINITY)] {
-            out.push(AcceptCase { f_current: Fb::of(fc), f_candidate: Fb::of(fnew), t: Fb::of(*t), n: n.min(500), seed: base.wrapping_add(977 + j as u64), below: (j % 3) as u8 });
+            out.push(AcceptCase { f_current: Fb::of(fc), f_candidate: Fb::of(fnew), t: Fb::of(*t), n: n.min(500), seed: base.wrapping_add(977 + j as u64), below: (j % 3) as u8, same_solution: j % 2 == 0, zero_rng: false });
+            out.push(AcceptCase { f_current: Fb::of(fc), f_candidate: Fb::of(fnew), t: Fb::of(*t), n: 3, seed: base.wrapping_add(977 + j as u64), below: 0, same_solution: false, zero_rng: true });
         }
     }
     // huge objective values whose difference is a few representable steps, temperature of the order of the difference:
@@ -247,14 +299,14 @@ fn grid(n: u32, base: u64) -> Vec<AcceptCase> {
             }
             let delta = fnew - fc;
             for factor in [0.35, 0.7, 1.5, 3.0] {
-                out.push(AcceptCase { f_current: Fb::of(fc), f_candidate: Fb::of(fnew), t: Fb::of(delta * factor), n, seed: base ^ (steps as u64 * 131) ^ ((factor * 100.0) as u64), below: 0 });
+                out.push(AcceptCase { f_current: Fb::of(fc), f_candidate: Fb::of(fnew), t: Fb::of(delta * factor), n, seed: base ^ (steps as u64 * 131) ^ ((factor * 100.0) as u64), below: 0, same_solution: steps == 2, zero_rng: false });
             }
         }
     }
     // cells in the informative region 0.01 < p < 0.99
     for ratio in [0.02, 0.1, 0.3, 0.7, 1.0, 1.5, 2.5, 4.0] {
         for t in [0.01, 1.0, 250.0] {
-            out.push(AcceptCase { f_current: Fb::of(2.0), f_candidate: Fb::of(2.0 + ratio * t), t: Fb::of(t), n, seed: base ^ ((ratio * 1000.0) as u64), below: 0 });
+            out.push(AcceptCase { f_current: Fb::of(2.0), f_candidate: Fb::of(2.0 + ratio * t), t: Fb::of(t), n, seed: base ^ ((ratio * 1000.0) as u64), below: 0, same_solution: false, zero_rng: false });
         }
     }
     out
@@ -276,7 +328,7 @@ pub fn run_all(ctx: &mut Ctx, replay: Option<&Path>) {
     ctx.exhaustive(&a, &format!("9 margins x 7 temperatures (+ shifted objective levels) + 21 cells with +inf objective values (tie / infeasible candidate / infeasible current) + 60 cells with huge objective levels 1-5 representable steps apart and T of the order of the difference + 24 cells with exp(-delta/T) in (0.01, 0.99), N = {n} seeds per cell"), grid(n, base).into_iter());
     ctx.random(
         &a,
-        (-50.0f64..50.0, prop_oneof![Just(0.0), -5.0f64..0.0, 0.0f64..8.0], prop_oneof![Just(1e-6), Just(0.5), Just(1.0), Just(3.0), 0.01f64..20.0], any::<u64>(), 0u8..3).prop_map(move |(fc, d, t, seed, below)| AcceptCase { f_current: Fb::of(fc), f_candidate: Fb::of(fc + d), t: Fb::of(t), n: 600, seed, below }),
+        (-50.0f64..50.0, prop_oneof![Just(0.0), -5.0f64..0.0, 0.0f64..8.0], prop_oneof![Just(1e-6), Just(0.5), Just(1.0), Just(3.0), 0.01f64..20.0], any::<u64>(), 0u8..3, any::<bool>()).prop_map(move |(fc, d, t, seed, below, same_solution)| AcceptCase { f_current: Fb::of(fc), f_candidate: Fb::of(fc + d), t: Fb::of(t), n: 600, seed, below, same_solution, zero_rng: false }),
         ctx.tier.pick(800, 4000),
     );
     let mut misc = Vec::new();
